@@ -358,14 +358,22 @@ func vsBitswapWorld(s *verifsim.Sim) {
 		roles    map[cid.Cid]string
 		err      error
 		viaGet   bool
-		smps     []shwap.Sample
+		// sq is the square whose roots this fetch was given (the header it trusts); store the blockstore
+		// it was given; srv the serving node whose blocks are honest for that header
+		sq    *verifsq.Square
+		store blockstore.Blockstore
+		srv   *Blockstore
+		smps  []shwap.Sample
 		coords   []shwap.SampleCoords
 	}
 	ntasks := s.Range(1, 3, "ntasks")
 	var tasks []*fetchTask
 	hdr := verifhdr.MakeHeader(hA, time.Now(), sqA.Roots)
+	// mixed: one fetch of the run was given another header for the same height (the roots of the
+	// other square): its requests have the same CIDs, its verifier accepts other bytes
+	mixed := false
 	for ti := 0; ti < ntasks; ti++ {
-		ft := &fetchTask{name: fmt.Sprintf("fetch%d", ti), roles: map[cid.Cid]string{}}
+		ft := &fetchTask{name: fmt.Sprintf("fetch%d", ti), roles: map[cid.Cid]string{}, sq: sqA, store: bstore, srv: serving}
 		tctx, cancel := context.WithCancel(ctx)
 		ft.cancel = cancel
 		if s.Chance(1, 4, "via_getter_getsamples") {
@@ -414,6 +422,13 @@ func vsBitswapWorld(s *verifsim.Sim) {
 					ft.blks = append(ft.blks, cp)
 				}
 			}
+			if ntasks > 1 && !mixed && s.Chance(1, 6, "fetch_with_another_header") {
+				s.Fault("fetch-with-another-header")
+				mixed = true
+				ft.name += "-other-header"
+				ft.sq, ft.srv = sqB, servingB
+				ft.store = blockstore.NewBlockstore(dssync.MutexWrap(datastore.NewMapDatastore()))
+			}
 			ft.done = s.Go(ft.name, func() {
 				defer func() {
 					if r := recover(); r != nil {
@@ -428,7 +443,7 @@ func vsBitswapWorld(s *verifsim.Sim) {
 					// the registry and registering it), so that concurrent fetches interleave there
 					bl[i] = vsYieldingBlock{Block: x.blk, s: s, label: ft.name + " registers " + x.kind, returned: &ft.returned, cid: x.cid, registered: ft.roles}
 				}
-				ft.err = Fetch(tctx, ex, sqA.Roots, bl, WithFetcher(ex.NewSession(tctx)), WithStore(bstore))
+				ft.err = Fetch(tctx, ex, ft.sq.Roots, bl, WithFetcher(ex.NewSession(tctx)), WithStore(ft.store))
 				ft.returned = true
 				vsSlowMu.Lock()
 				for c := range ft.roles {
@@ -590,6 +605,12 @@ func vsBitswapWorld(s *verifsim.Sim) {
 		for _, c := range wanted {
 			if data := honestBytes(c, serving); data != nil {
 				acc, got, derr := deliver(c.Prefix(), data)
+				if !acc && mixed {
+					// the identifier may have been registered by the fetch that trusts the other header
+					if other := honestBytes(c, servingB); other != nil {
+						acc, got, derr = deliver(c.Prefix(), other)
+					}
+				}
 				if acc {
 					progress = true
 				} else {
@@ -613,7 +634,8 @@ func vsBitswapWorld(s *verifsim.Sim) {
 			stuck = true
 		}
 	}
-	if stuck && !cancelled {
+	// (with two headers for one height in the run a fetch may rightly stay unfulfilled: not judged)
+	if stuck && !cancelled && !mixed {
 		sig := "fetch"
 		if strings.HasPrefix(rejectReason, "no unmarshaller registered") {
 			sig = "duplicate fetch outlives the registering fetch"
@@ -681,7 +703,7 @@ func vsBitswapWorld(s *verifsim.Sim) {
 				}
 				continue
 			}
-			if err := rb.check(sqA); err != nil {
+			if err := rb.check(ft.sq); err != nil {
 				s.ViolateP("C10", "c10-populated-with-wrong-data", vsKindWord(rb.kind), "%s: block %s was populated with data that is not the reference data of its identifier: %v", ft.name, rb.kind, err)
 				if vsKindWord(rb.kind) == "rownd" {
 					s.ViolateP("C02", "c02-rejected-data-accepted", "bitswap.rownd", "%s: the requested bitswap block %s was left holding namespace data that is not the complete committed data of that namespace and row: %v", ft.name, rb.kind, err)
@@ -694,21 +716,43 @@ func vsBitswapWorld(s *verifsim.Sim) {
 		}
 	}
 	// what a fetch keeps in the blockstore it was given (WithStore) is verified data of that identifier
+	type storeRef struct {
+		st  blockstore.Blockstore
+		srv *Blockstore
+		who string
+	}
+	var stores []storeRef
 	if wiring == 1 {
+		stores = append(stores, storeRef{bstore, serving, "the fetches"})
+	}
+	for _, ft := range tasks {
+		if ft.sq == sqB {
+			stores = append(stores, storeRef{ft.store, servingB, ft.name})
+		}
+	}
+	for _, sr := range stores {
 		for _, rb := range pool {
-			blk, err := bstore.Get(ctx, rb.cid)
+			blk, err := sr.st.Get(ctx, rb.cid)
 			if err != nil {
 				continue
 			}
-			if ref := honestBytes(rb.cid, serving); ref != nil && !bytes.Equal(blk.RawData(), ref) {
+			if ref := honestBytes(rb.cid, sr.srv); ref != nil && !bytes.Equal(blk.RawData(), ref) {
 				vsSlowMu.Lock()
 				stale := vsStale[rb.cid]
 				vsSlowMu.Unlock()
-				if stale {
-					s.ViolateP("C10", "c10-unverified-block-stored", "delivery verified against the entry of a fetch that had returned", "the blockstore given to Fetch holds, under the identifier of %s, bytes that are not the honest block of that identifier: a hostile copy was inside the hasher, checked by the (already populated, hence all-accepting) verifier of a fetch that had returned, and was handed to a later fetch of the identifier, which stored it", rb.kind)
+				if stale && mixed {
+					s.ViolateP("C10", "c10-unverified-block-stored", "delivery verified against the entry of a returned fetch that trusted another header", "the blockstore given to %s holds, under the identifier of %s, a block that does not verify for the header that fetch trusts: a copy was inside the hasher, checked by the verifier of a fetch of the same identifier that trusted another header and had returned meanwhile, and was handed to the later fetch, which - being the registrant of its own entry - stored it unchecked", sr.who, rb.kind)
 					return
 				}
-				s.ViolateP("C10", "c10-unverified-block-stored", vsKindWord(rb.kind), "the blockstore given to Fetch holds, under the identifier of %s, bytes that are not the honest block of that identifier (they never verified for the fetch that stored them)", rb.kind)
+				if stale {
+					s.ViolateP("C10", "c10-unverified-block-stored", "delivery verified against the entry of a fetch that had returned", "the blockstore given to Fetch holds, under the identifier of %s, bytes that are not the honest block of that identifier: a hostile copy was inside the hasher, checked by the verifier of a fetch that had returned, and was handed to a later fetch of the identifier, which stored it", rb.kind)
+					return
+				}
+				sig := vsKindWord(rb.kind)
+				if mixed {
+					sig = "duplicate fetch with another header"
+				}
+				s.ViolateP("C10", "c10-unverified-block-stored", sig, "the blockstore given to %s holds, under the identifier of %s, bytes that are not the honest block of that identifier for the header they trust (they never verified for the fetch that stored them)", sr.who, rb.kind)
 				return
 			}
 		}
